@@ -109,7 +109,9 @@ func main() {
 		c := map[string]any{"schema": text, "definitions": label, "layout": layout, "origin": origin}
 		f1 := format(text)
 		atomic.AddInt64(&trans, 1)
-		sig := func(kind string) string { return fmt.Sprintf("%s|%s|%s|%s|layout=%s", *prop, origin, kind, label, layout) }
+		sig := func(kind string) string {
+			return fmt.Sprintf("%s|%s|%s|%s|layout=%s", *prop, origin, kind, label, layout)
+		}
 		switch {
 		case f1.timeout:
 			run.Report(sig("hang"), "Format did not return within 20 s", c)
